@@ -46,11 +46,21 @@ def prove(goal, assumptions=(), timeout=60.0, variants=None, cross=None):
     for v in (variants or DEFAULT_VARIANTS):
         budget = max(2.0, timeout * v['share'])
         try:
-            tr = T(limb_min=v['limb_min'], abstract=v['abstract'])
+            tr = T(limb_min=v['limb_min'], abstract=v['abstract'], nowrap=v.get('nowrap', False))
             asm = [a(tr) if callable(a) else tr.bool(a) for a in assumptions]
             g = goal(tr)
         except NotImplementedError as e:
             return Res('unknown', t=time.time() - t_start, info='encoder: %s' % e)
+        if tr.nowrap_obl:
+            # assume-and-prove: every "does not wrap" side obligation is proved (in creation order, each from the earlier ones) before it is used
+            okw = True; facts = []
+            for ob in tr.nowrap_obl:
+                sw = z3.SolverFor(v['logic']) if v['logic'] else z3.Solver()
+                sw.add(tr.side); sw.add(asm); sw.add(facts); sw.add(z3.Not(ob)); rw, dtw = _check(sw, max(2.0, budget) * 1000 / 2)
+                if rw != z3.unsat: okw = False; info.append('nowrap-obligation:%s' % rw); break
+                facts.append(ob)
+            if not okw: continue
+            asm = asm + facts
         if v['abstract'] and tr.nprod == 0 and any(x.startswith('real') for x in info): continue
         s = z3.SolverFor(v['logic']) if v['logic'] else z3.Solver()
         s.add(tr.side); s.add(asm); s.add(z3.Not(g))
